@@ -296,20 +296,28 @@ def scripts(tier, seed, scale=1):
         lines += ["st flush", "st deliver 1000000"] + (["st eof"] if r.random() < 0.3 else []) + ["st poll", "st dispatch", "st sync"]
         out.append(("glue%s:%s:%d" % (mode.replace(" ", "-"), codec, k), lines))
     # messages larger than the sender's socket buffer: the flush writes in parts, the write queue wraps around
-    for k in range((6 if tier == "quick" else 40) * scale):
+    for k in range((3 if tier == "quick" else 30) * scale):
         codec = r.choice(CODECS)
         mode = ("", " input", " wait")[k % 3]
         lines = ["st new " + codec + mode]
         for j in range(r.choice([2, 3, 5])):
-            n = r.choice([700, 3000, 9000, 20000])
+            n = r.choice([700, 3000, 6000])
             m = [0x85 if mode == " wait" else 7] + [r.choice([0, 0, 1, 7, 255]) for _ in range(n)]
             for c in c01.chunkings(r, m, r.choice(["one", "rand"])):
                 lines.append("st push " + gen.hexs(c))
+                if r.random() < 0.3:
+                    lines.append("st flush1")
             lines.append("st term")
+            lines.append(r.choice(["st flush1", "st flush1", "st flush"]))
             if r.random() < 0.6:
                 lines += ["st flush", "st deliver %d" % r.choice([1000, 5000, 100000]), "st poll", "st dispatch"]
         lines += ["st flush", "st deliver 1000000", "st poll", "st dispatch", "st sync"]
         out.append(("glue-big%s:%s:%d" % (mode.replace(" ", "-"), codec, k), lines))
+    # the write queue wraps around after a partial write and is flushed in two parts
+    for codec in CODECS[:2] if tier == "quick" else CODECS:
+        lines = ["st new " + codec, "st push " + gen.hexs([7, 0, 9] * 2000), "st flush1", "st push " + gen.hexs([1, 0] * 1500), "st term",
+                 "st push " + gen.hexs([5] * 700), "st term", "st flush", "st deliver 1000000", "st poll", "st dispatch", "st sync"]
+        out.append(("glue-wrap:%s" % codec, lines))
     # full blocks that end exactly at the end of the write queue (the encoder takes a byte back and consumes nothing)
     for codec in CODECS:
         full = 222 if "zpe" in codec else 254
